@@ -54,6 +54,7 @@ func runC14(c *Ctx) {
 		iff   *ssa.If
 		phi   *ssa.Phi
 		bound ssa.Value
+		down  bool // counts down from bound to 1 (`for pending := n; pending > 0; pending--`)
 	}
 	var loops []loop
 	for _, b := range f.Blocks {
@@ -62,6 +63,28 @@ func runC14(c *Ctx) {
 			continue
 		}
 		bo, ok := iff.Cond.(*ssa.BinOp)
+		if ok && bo.Op == token.GTR {
+			// count-down form: `pending > 0` on a phi that starts at the bound and is decremented by one
+			if z, isC := constInt(bo.Y); isC && z == 0 {
+				if ph, isPhi := bo.X.(*ssa.Phi); isPhi && ph.Block() == b && len(ph.Edges) == 2 {
+					var init ssa.Value
+					dec := false
+					for _, e := range ph.Edges {
+						if sub, isSub := e.(*ssa.BinOp); isSub && sub.Op == token.SUB && sub.X == ssa.Value(ph) {
+							if k, isK := constInt(sub.Y); isK && k == 1 {
+								dec = true
+								continue
+							}
+						}
+						init = e
+					}
+					if dec && init != nil {
+						loops = append(loops, loop{iff, ph, init, true})
+					}
+				}
+			}
+			continue
+		}
 		if !ok || bo.Op != token.LSS {
 			continue
 		}
@@ -85,7 +108,7 @@ func runC14(c *Ctx) {
 						}
 						for _, r := range referrers(inc) {
 							if lt, isLt := r.(*ssa.BinOp); isLt && lt.Op == token.LSS && lt.X == ssa.Value(inc) && lt.Y == bo.Y {
-								loops = append(loops, loop{iff, ph, bo.Y})
+								loops = append(loops, loop{iff, ph, bo.Y, false})
 							}
 						}
 					}
@@ -93,7 +116,7 @@ func runC14(c *Ctx) {
 			}
 			continue
 		}
-		loops = append(loops, loop{iff, phi, bo.Y})
+		loops = append(loops, loop{iff, phi, bo.Y, false})
 	}
 	var spawn, collect *loop
 	for i := range loops {
@@ -426,8 +449,15 @@ func runC14(c *Ctx) {
 					}
 				}
 				// i >= count-1
+				// count-down loop: the last result is awaited when one is outstanding
+				if collect.down && cm.X == ssa.Value(collect.phi) && (cm.Op == token.EQL || cm.Op == token.LEQ) {
+					if n, ok := constInt(cm.Y); ok && n == 1 {
+						reasons = append(reasons, "last")
+						continue
+					}
+				}
 				// (inside the loop i < count holds, so i == count-1 says the same)
-				if cm.X == ssa.Value(collect.phi) && (cm.Op == token.GEQ || cm.Op == token.EQL) {
+				if !collect.down && cm.X == ssa.Value(collect.phi) && (cm.Op == token.GEQ || cm.Op == token.EQL) {
 					if bo, ok := cm.Y.(*ssa.BinOp); ok && bo.Op == token.SUB && bo.X == collect.bound {
 						if n, ok := constInt(bo.Y); ok && n == 1 {
 							reasons = append(reasons, "last")
